@@ -87,8 +87,8 @@ fn id32(id: Id) -> Id32 {
 pub fn exec(ctx: &Ctx, op: &Opk) -> Res {
     let r = catch(|| match op {
         Opk::Store(i) => {
-            let e = unsafe { Event::delineate(&ctx.bytes[*i]).unwrap() };
-            match ctx.store.store_event(e) {
+            let e = pocket_types::OwnedEvent(ctx.bytes[*i].clone());
+            match ctx.store.store_event(&e) {
                 Ok(o) => Res::Store(Outcome::Ok(o)),
                 Err(e) => Res::Store(Outcome::Err(classify_err(&e))),
             }
@@ -112,7 +112,10 @@ pub fn exec(ctx: &Ctx, op: &Opk) -> Res {
             }
             Err(e) => Res::Failed(format!("{e}")),
         },
-        Opk::Find(fi) => match ctx.store.find_events(&ctx.filters[*fi], true, 0, 0, |_| ScreenResult::Match) {
+        Opk::Find(fi) => match ctx.store.find_events(&ctx.filters[*fi], true, 0, 0, |_| {
+            on_point("screen");
+            ScreenResult::Match
+        }) {
             Ok((evs, _)) => {
                 let mut ids = vec![];
                 let mut ok = true;
@@ -174,7 +177,13 @@ thread_local! {
 static JITTER_US: AtomicU64 = AtomicU64::new(0);
 
 pub fn install_handler() {
-    pocket_db::verif::set_point_handler(Some(Arc::new(|name: &'static str| {
+    pocket_db::verif::set_point_handler(Some(Arc::new(on_point)));
+}
+
+/// Called at every verif point, and by the harness's own screen callback ("screen": the caller's
+/// screening function runs in the middle of a query's scan and may block for as long as it likes)
+pub fn on_point(name: &'static str) {
+    {
         let ctl = TL_CTL.with(|c| c.borrow().clone());
         if let Some(ctl) = ctl {
             let n = {
@@ -210,7 +219,7 @@ pub fn install_handler() {
                 std::thread::yield_now();
             }
         }
-    })));
+    }
 }
 
 // ------------------------------------------------------------------------------------------ scenarios (leg 1)
@@ -270,6 +279,39 @@ pub fn catalogue(rng: &mut Rng) -> Vec<Scenario> {
             v.push(Scenario { name: format!("{nm}-vs-store"), events: ev.clone(), filters: vec![f.clone()], prepopulate: vec![0, 1, 2, 3], ops: vec![b, Opk::Store(i)] });
         }
     }
+    // S4b: a query over several authors / kinds / tag values parked in the middle of its scan (at the
+    //      caller's screen callback) while two stores commit one after the other
+    {
+        let mut ev = vec![
+            mk(rng, 0, 1, 100, vec![vec!["t".into(), "a".into()]]),
+            mk(rng, 1, 1, 101, vec![vec!["t".into(), "b".into()]]),
+            mk(rng, 0, 7, 102, vec![vec!["t".into(), "a".into()]]),
+            mk(rng, 1, 7, 103, vec![vec!["t".into(), "b".into()]]),
+        ];
+        ev.push(mk(rng, 0, 1, 150, vec![vec!["t".into(), "a".into()]])); // x: author 0 / kind 1 / t=a
+        ev.push(mk(rng, 1, 7, 151, vec![vec!["t".into(), "b".into()]])); // y: author 1 / kind 7 / t=b
+        let (x, y) = (ev.len() - 2, ev.len() - 1);
+        let filters = vec![
+            SemFilter { authors: vec![author(0), author(1)], kinds: vec![1, 7], ..SemFilter::empty() },
+            SemFilter { authors: vec![author(1), author(0)], kinds: vec![7, 1], ..SemFilter::empty() },
+            SemFilter { authors: vec![author(0), author(1)], tags: vec![("t".into(), vec!["a".into(), "b".into()])], ..SemFilter::empty() },
+            SemFilter { kinds: vec![1, 7], tags: vec![("t".into(), vec!["a".into(), "b".into()])], ..SemFilter::empty() },
+            SemFilter { tags: vec![("t".into(), vec!["b".into(), "a".into()])], ..SemFilter::empty() },
+            SemFilter { authors: vec![author(0), author(1)], ..SemFilter::empty() },
+            SemFilter { kinds: vec![1, 7], ..SemFilter::empty() },
+        ];
+        for fi in 0..filters.len() {
+            for (first, second) in [(x, y), (y, x)] {
+                v.push(Scenario {
+                    name: format!("parked-query-{}-vs-stores-{}", plan_of(&filters[fi]), if first == x { "xy" } else { "yx" }),
+                    events: ev.clone(),
+                    filters: filters.clone(),
+                    prepopulate: vec![0, 1, 2, 3],
+                    ops: vec![Opk::Find(fi), Opk::Store(first), Opk::Store(second)],
+                });
+            }
+        }
+    }
     // S5: remove vs query / get
     {
         let ev = base(rng);
@@ -327,8 +369,8 @@ fn setup(sc: &Scenario, tag: &str) -> Option<Live> {
     let store = Store::new(&dir, vec![]).ok()?;
     let mut model = Model::new();
     for i in sc.prepopulate.iter() {
-        let e = unsafe { Event::delineate(&sc.events[*i].bytes).unwrap() };
-        if store.store_event(e).is_ok() {
+        let e = pocket_types::OwnedEvent(sc.events[*i].bytes.clone());
+        if store.store_event(&e).is_ok() {
             model.apply_store(&sc.events[*i]);
         }
     }
@@ -980,8 +1022,8 @@ pub fn growth_child(args: &Args) {
     // writer (this thread): journals file length and base address after every store
     let mut last_base = 0usize;
     for (i, b) in bytes.iter().enumerate() {
-        let e = unsafe { Event::delineate(b).unwrap() };
-        match store.store_event(e) {
+        let e = pocket_types::OwnedEvent(b.clone());
+        match store.store_event(&e) {
             Ok(off) => {
                 offsets.lock().unwrap().push((off, i));
                 let base = store.get_event_by_offset(8).map(|e| e as *const Event as *const u8 as usize).unwrap_or(0);
@@ -1107,6 +1149,24 @@ pub fn run(args: &Args) -> Report {
         }
     }
     pocket_db::verif::set_point_handler(None);
+    if args.get("scenario").is_none() {
+        match args.get_str("part", "all").as_str() {
+            "growth" => {
+                rep.require("growth_g1_runs", "growth scenario g1 did not run");
+                rep.require("growth_g2_runs", "growth scenario g2 did not run");
+                rep.require("growth_g1_growths_observed", "no growth of the map observed in g1");
+            }
+            "stress" => rep.require("stress_rounds", "no stress round completed"),
+            "schedules" | _ => {
+                rep.require("schedules_where_B_blocked_behind_A", "no schedule in which the second operation blocked behind the paused one");
+                rep.require("schedules_where_B_ran_while_A_was_parked", "no schedule in which the second operation ran while the first was parked");
+                if args.get_str("part", "all") == "all" {
+                    rep.require("stress_rounds", "no stress round completed");
+                    rep.require("ops_with_several_candidate_states", "no stress operation overlapped a commit");
+                }
+            }
+        }
+    }
     rep
 }
 
